@@ -486,7 +486,25 @@ def judge_program(text, wc, indent):
     except Exception:
         return None
     out = pretty_text(tree, indent)
-    return judge_text(out, indent), out
+    problems = judge_text(out, indent)
+    if not wc and not problems:
+        # the other public ways of asking for the same thing (unparsers.es5.pretty_print, the calmjs.parse.es5 helper with the
+        # indentation passed by keyword) must print the same text: the property is about "the pretty printer", not one door
+        from calmjs.parse.unparsers import es5 as u
+        import calmjs.parse
+        try:
+            alt = [('unparsers.es5.pretty_print(tree, indent_str=…)', u.pretty_print(tree, indent_str=indent)),
+                   ('calmjs.parse.es5.pretty_print(text, indent_str=…)', calmjs.parse.es5.pretty_print(text, indent_str=indent))]
+        except Exception as e:
+            alt = [('alternative entry point raises %s' % type(e).__name__, None)]
+        for name, o in alt:
+            if o != out:
+                p2 = judge_text(o, indent) if isinstance(o, str) else ['no output']
+                if p2:
+                    problems = ['%s: %s' % (name, p2[0])]
+                    out = o if isinstance(o, str) else out
+                    break
+    return problems, out
 
 
 def classify_known(text, wc, indent, out):
